@@ -23,22 +23,34 @@ def parseOp (s : String) : Option Op :=
 def parseOps (s : String) : Option (List Op) :=
   if s == "-" then some [] else (s.splitOn ";").mapM parseOp
 
-/-- event token → replica and the model events it stands for (`s` = Snapshot() then Persist()) -/
-def parseEvent (s : String) : Option (Nat × List Ev) := do
+/-- an event token: model events (`s` = Snapshot() then Persist()), or a composite of the real-Raft
+    harness, of which only the end is observed: `R<c>` restart and replay up to `c` entries,
+    `I<src>:<c>` restart, install the newest snapshot of `src`, replay up to `c`, `A<c>` apply up to `c` -/
+inductive Tok where
+  | evs (l : List Ev)
+  | upTo (pre : List Ev) (c : Nat)
+
+def parseEvent (s : String) : Option (Nat × Tok) := do
   let r ← (s.take 1).toString.toNat?
   let rest := (s.drop 1).toString
-  if rest == "a" then pure (r, [.apply])
-  else if rest == "b" then pure (r, [.snapBegin])
-  else if rest == "p" then pure (r, [.snapPersist])
-  else if rest == "s" then pure (r, [.snapBegin, .snapPersist])
-  else if rest == "d" then pure (r, [.shutdown])
-  else if rest == "k" then pure (r, [.kill])
-  else if rest == "r" then pure (r, [.restart])
-  else if rest == "o" then pure (r, [.offline])
-  else if rest.startsWith "i" then do pure (r, [.install (← (rest.drop 1).toString.toNat?)])
+  if rest == "a" then pure (r, .evs [.apply])
+  else if rest == "b" then pure (r, .evs [.snapBegin])
+  else if rest == "p" then pure (r, .evs [.snapPersist])
+  else if rest == "s" then pure (r, .evs [.snapBegin, .snapPersist])
+  else if rest == "d" then pure (r, .evs [.shutdown])
+  else if rest == "k" then pure (r, .evs [.kill])
+  else if rest == "r" then pure (r, .evs [.restart])
+  else if rest == "o" then pure (r, .evs [.offline])
+  else if rest.startsWith "i" then do pure (r, .evs [.install (← (rest.drop 1).toString.toNat?)])
+  else if rest.startsWith "R" then do pure (r, .upTo [.restart] (← (rest.drop 1).toString.toNat?))
+  else if rest.startsWith "A" then do pure (r, .upTo [] (← (rest.drop 1).toString.toNat?))
+  else if rest.startsWith "I" then
+    match (rest.drop 1).toString.splitOn ":" with
+    | [a, b] => do pure (r, .upTo [.restart, .install (← a.toNat?)] (← b.toNat?))
+    | _ => none
   else none
 
-def parseEvents (s : String) : Option (List (Nat × List Ev)) :=
+def parseEvents (s : String) : Option (List (Nat × Tok)) :=
   if s == "-" then some [] else (s.splitOn ",").mapM parseEvent
 
 def parseRes (s : String) : Option Res :=
@@ -122,9 +134,17 @@ def addFeat (fs : List String) (f : String) : List String := if fs.contains f th
 def showRes : Res → String
   | .ok => "ok" | .noop => "noop" | .err => "err" | .crash => "crash"
 
-def oneEvent (ops : List Op) (a : Acc) (i : Nat) (evs : List Ev) (o : RawObs) (k : Nat) : Acc :=
+def oneEvent (ops : List Op) (a : Acc) (i : Nat) (tok : Tok) (o : RawObs) (k : Nat) : Acc :=
   -- run the model events of this token; the observation belongs to the last one
   let pre := a.sys
+  let composite := match tok with | .upTo .. => true | _ => false
+  let evs : List Ev := match tok with
+    | .evs l => l
+    | .upTo preEvs c =>
+      -- how many applies the model needs after the preamble to reach `c`
+      let s1 := preEvs.foldl (fun s e => (step ops s i e).1) a.sys
+      let ap := ((s1[i]?).map (·.applied)).getD 0
+      preEvs ++ List.replicate (c - ap) .apply
   let (sys', out, sh', beyond, lastEv) := evs.foldl
     (fun (st : Sys × StepOut × List Shadow × Bool × Ev) e =>
       let (s, prev, sh, b, _) := st
@@ -135,18 +155,26 @@ def oneEvent (ops : List Op) (a : Acc) (i : Nat) (evs : List Ev) (o : RawObs) (k
             (match ops[r.applied]? with | some op => !(op.isPin && op.decodable) | none => false)
         | _, _ => false)
       let (s', out) := step ops s i e
-      (s', out, shadowStep sh s s' i e out.res, b', e))
-    (a.sys, { res := .noop }, a.shadow, a.beyond, Ev.apply)
+      -- a composite reports ok when every part happened, and all tracker calls together
+      let out' : StepOut := if composite then
+          { res := if prev.res == .ok then out.res else prev.res, calls := prev.calls ++ out.calls }
+        else out
+      (s', out', shadowStep sh s s' i e out.res, b', e))
+    (a.sys, { res := if composite then .ok else .noop }, a.shadow, a.beyond, Ev.apply)
   let r' := (sys'[i]?).getD {}
   let (ev, ea) := observe r' lastEv
   let agree := out.res == o.res && ea == o.applied && canonView ev == canonView o.view &&
-               out.calls.map canonCall == o.calls.map canonCall
-  let obs : Obs := { rep := i, ev := lastEv, res := o.res, applied := o.applied, view := o.view, calls := o.calls }
+               (if composite then (out.calls.map canonCall).isPerm (o.calls.map canonCall)
+                else out.calls.map canonCall == o.calls.map canonCall)
+  -- for the Spec a composite is one non-acknowledging observation (its tracker calls are compared with the model's above)
+  let obs : Obs := if composite
+    then { rep := i, ev := .restart, res := o.res, applied := o.applied, view := o.view, calls := [] }
+    else { rep := i, ev := lastEv, res := o.res, applied := o.applied, view := o.view, calls := o.calls }
   let win := match sh'[i]? with | some x => decide (x.hi > r'.applied) | none => false
   let feats := a.feats
   let feats := match lastEv with
     | .apply => if out.res == .err then addFeat feats "undecodable" else if out.res == .crash then addFeat feats "crash" else feats
-    | .snapPersist => if evs.length == 1 && ((pre[i]?).bind (·.pending)).any (fun k => decide (k < ((pre[i]?).map (·.applied)).getD 0))
+    | .snapPersist => if !composite && evs.length == 1 && ((pre[i]?).bind (·.pending)).any (fun k => decide (k < ((pre[i]?).map (·.applied)).getD 0))
                       then addFeat feats "late-persist" else addFeat feats "snapshot"
     | .install _ => if out.res == .ok then
                       (if ((pre[i]?).map (fun r => !r.store.isEmpty)).getD false then addFeat feats "install-nonempty" else addFeat feats "install") else feats
@@ -154,6 +182,12 @@ def oneEvent (ops : List Op) (a : Acc) (i : Nat) (evs : List Ev) (o : RawObs) (k
     | .kill => addFeat feats "kill"
     | .restart => if out.res == .ok then addFeat feats "restart" else feats
     | .offline => addFeat feats "offline"
+    | _ => feats
+  let feats := match tok with
+    | .upTo [] _ => addFeat feats "follower-catch-up"
+    | .upTo [.restart] _ => addFeat feats "restart-replay"
+    | .upTo _ _ => if ((pre[i]?).map (fun r => !(r.offlineView).isEmpty)).getD false
+                   then addFeat feats "restart-install-nonempty" else addFeat feats "restart-install"
     | _ => feats
   let feats := if win then addFeat feats "replay-window" else feats
   { sys := sys', shadow := sh', trace := obs :: a.trace, inWindow := win :: a.inWindow,
@@ -165,7 +199,7 @@ def oneEvent (ops : List Op) (a : Acc) (i : Nat) (evs : List Ev) (o : RawObs) (k
                 "~calls" ++ toString out.calls.length),
     beyond := beyond, nApply := a.nApply + (if lastEv == .apply && out.res == .ok then 1 else 0), feats := feats }
 
-def runCase (ops : List Op) (n : Nat) (evs : List (Nat × List Ev)) (obs : List RawObs) : Acc :=
+def runCase (ops : List Op) (n : Nat) (evs : List (Nat × Tok)) (obs : List RawObs) : Acc :=
   let init : Acc := { sys := initSys n, shadow := List.replicate n {} }
   ((evs.zip obs).foldl (fun (st : Acc × Nat) eo => (oneEvent ops st.1 eo.1.1 eo.1.2 eo.2 st.2, st.2 + 1)) (init, 0)).1
 
